@@ -7,13 +7,40 @@ import json
 import bindgen as G
 import bindlib as B
 
-WIDE_FEATURES = {"attr", "elem", "child", "list", "text", "ns", "nillable", "tokens", "wrapper", "sequence"}
-FEAT = {"nillable": True, "tokens": True, "wrapper": True, "sequence": True}
+WIDE_FEATURES = {"attr", "elem", "child", "list", "text", "ns", "nillable", "tokens", "wrapper", "sequence", "attributes", "fixed"}
+FEAT = {"nillable": True, "tokens": True, "wrapper": True, "sequence": True, "fixed": True, "anyAttrs": True}
+XSI = "http://www.w3.org/2001/XMLSchema-instance"
 
 TYPING = ("out-of-claim: None inside a list that is not nillable", "out-of-claim: None where the default is not None")
 TOKEN = "out-of-claim: empty token or token with white space (xs:list)"
 NIL_CLASS = "out-of-claim: None under a nillable var of a nillable class (same document as an empty object)"
 EMPTY_TEXT = "out-of-claim: empty text vs None"
+FIXED = "out-of-claim: init=False field that differs from its default (not an __init__ parameter)"
+MAP_KEY_NS = "out-of-claim: key of an Attributes map outside the namespaces of the var (typing)"
+MAP_KEY_XSI = "out-of-claim: key of an Attributes map in the xsi namespace (xsi:type / xsi:nil are control attributes)"
+MAP_VALUE_DT = "out-of-claim (model): value of an Attributes map that is the Clark name of a datatype (needs the writer's prefixes)"
+
+
+def _uri(qname):
+    return qname[1:].split("}", 1)[0] if qname.startswith("{") else None
+
+
+def _admits(namespaces, qname):
+    """XmlVar.match_namespace, re-stated"""
+    uri = _uri(qname)
+    if not namespaces and uri is None:
+        return True
+    for check in namespaces:
+        if (not check and uri is None) or check == uri or check == "##any":
+            return True
+        if check and check[0] == "!" and check[1:] != uri:
+            return True
+    return False
+
+
+def _prefix_like(v):
+    left, sep, right = v.partition(":")
+    return bool(sep) and bool(right) and bool(left) and not right.startswith("//")
 
 
 def _ftype(f):
@@ -25,10 +52,31 @@ def _is_list(t):
     return isinstance(t, dict) and "list" in t
 
 
-def regions(desc, value):
-    """known findings / out-of-claim regions an instance of a WIDE_FEATURES universe falls under"""
+def regions(desc, value, ctx=None):
+    """known findings / out-of-claim regions an instance of a WIDE_FEATURES universe falls under
+    (`ctx`: the exported metadata, needed for the qualified names an `Attributes` map may hold)"""
     by = {c["name"]: c for c in desc["classes"]}
+    metas = {ci["id"]: [m for _, m in ci["metas"]] for ci in (ctx or {"classes": []})["classes"]}
     out = []
+
+    def has_map(name):
+        return any(_ftype(f) == "Attributes" for f in by[name]["fields"])
+
+    def map_check(cname, entries):
+        from xsdata.models.enums import DataType
+
+        for k, v in entries:
+            for m in metas.get(cname, []):
+                if not all(_admits(av["namespaces"], k) for av in m["any_attributes"]):
+                    out.append(MAP_KEY_NS)
+                if any(q == k for q, _ in m["attributes"]):
+                    out.append("C01-attributes-key-declared")
+            if _uri(k) == XSI:
+                out.append(MAP_KEY_XSI)
+            if _prefix_like(v):
+                out.append("C01-attributes-value-prefix-rewritten")
+            if v.startswith("{") and DataType.from_qname(v):
+                out.append(MAP_VALUE_DT)
 
     def cls_nillable(name):
         return bool((by[name].get("meta") or {}).get("nillable"))
@@ -61,6 +109,8 @@ def regions(desc, value):
         cn = cls_nillable(v["obj"])
         if nl and not cn and not has_content(c, v):
             out.append("C01-nillable-empty-object")
+        if (nl or cn) and has_map(v["obj"]) and not has_content(c, v):
+            out.append("C01-nillable-class-attributes-capture-nil")
         for (_, x), f in zip(v["fields"], c["fields"]):
             md = f.get("metadata", {})
             typ = _ftype(f)
@@ -86,7 +136,11 @@ def regions(desc, value):
                     elif not in_list and dflt not in (None, "", "<required>"):
                         out.append("C01-empty-str-element-default")
 
-            if typ == "Attribute":
+            if f.get("init") is False and x != G_val(dflt):
+                out.append(FIXED)
+            if typ == "Attributes":
+                map_check(v["obj"], x["attrs"])
+            elif typ == "Attribute":
                 if tokens:
                     tok_check(x["list"])
                 elif x is None:
@@ -120,6 +174,17 @@ def regions(desc, value):
 
     walk(value, False)
     return out
+
+
+def G_val(d):
+    """the `Val` of a primitive default"""
+    if isinstance(d, bool):
+        return {"bool": d}
+    if isinstance(d, int):
+        return {"int": d}
+    if isinstance(d, str):
+        return {"str": d}
+    return None
 
 
 def _seq_ok(vs):
@@ -171,10 +236,32 @@ def spoil(rng, value):
                         leaves.append(y)
                     walk(y)
 
+    maps = []
+
+    def find_maps(x):
+        if isinstance(x, dict):
+            if "obj" in x:
+                for kv in x["fields"]:
+                    if isinstance(kv[1], dict) and "attrs" in kv[1]:
+                        maps.append((x, kv[1]))
+                    find_maps(kv[1])
+            elif "list" in x:
+                for y in x["list"]:
+                    find_maps(y)
+
     walk(v)
+    find_maps(v)
     for leaf in leaves:
         if rng.random() < 0.25:
             leaf["str"] = rng.choice(["", "", " ", "a b", "\tq"])
+    for o, m in maps:
+        if rng.random() < 0.4:
+            # keys named like the other fields of the object (declared attributes), control attributes,
+            # values that look like prefixed names
+            k = rng.choice([kv[0] for kv in o["fields"]] + ["{%s}nil" % XSI, "{%s}type" % XSI, "{urn:o}q", "w"])
+            val = rng.choice(["ns0:bar", "xs:int", "p:", ":x", "http://h", "{http://www.w3.org/2001/XMLSchema}int", "true"])
+            if all(kv[0] != k for kv in m["attrs"]):
+                m["attrs"].append([k, val])
     return v
 
 
@@ -229,7 +316,7 @@ SEQUENCE_OK = _case(
     {"obj": "Root", "fields": [["a", {"list": [{"int": 1}, {"int": 2}, {"int": 3}]}], ["m", {"str": "mid"}],
                                ["b", {"list": [{"str": "x"}, None]}]]},
 )
-NIL_IN_ATTRIBUTES = (
+NIL_IN_ATTRIBUTES = _case(
     {"classes": [
         {"name": "Leaf", "meta": {"nillable": True}, "fields": [
             _f("m", {"dict": 1}, {"factory": "dict"}, type="Attributes", namespace="##any"),
@@ -237,6 +324,26 @@ NIL_IN_ATTRIBUTES = (
         {"name": "Root", "fields": [_f("c", {"opt": {"cls": "Leaf"}}, NONE, type="Element")]}]},
     {"obj": "Root", "fields": [["c", {"obj": "Leaf", "fields": [["m", {"attrs": []}], ["z", None]]}]]},
 )
+
+
+_MAP = _f("m", {"dict": 1}, {"factory": "dict"}, type="Attributes", namespace="##any")
+_FIXED = [
+    _MAP,
+    _f("k", {"opt": "int"}, NONE, type="Attribute"),
+    {"name": "fx", "type": "str", "metadata": {"type": "Attribute"}, "default": {"value": "v1"}, "init": False},
+    {"name": "fe", "type": "int", "metadata": {"type": "Element"}, "default": {"value": 7}, "init": False},
+    _f("z", {"opt": "str"}, NONE, type="Element"),
+]
+
+
+def _fixed_val(m, k=None, z=None):
+    return {"obj": "Root", "fields": [["m", {"attrs": m}], ["k", k], ["fx", {"str": "v1"}], ["fe", {"int": 7}], ["z", z]]}
+
+
+MAP_FIXED_OK = _case({"classes": [{"name": "Root", "fields": _FIXED}]},
+                     _fixed_val([["x", "1"], ["{urn:q}y", "a b"], ["u", "http://h/p"]], {"int": 3}, {"str": "zz"}))
+MAP_KEY_DECLARED = _case({"classes": [{"name": "Root", "fields": _FIXED}]}, _fixed_val([["k", "5"]]))
+MAP_VALUE_PREFIX = _case({"classes": [{"name": "Root", "fields": _FIXED}]}, _fixed_val([["{urn:q}x", "ns0:bar"]]))
 
 
 def replay(desc, value, expect):
@@ -264,4 +371,6 @@ FINDINGS = {
     "C01-nillable-class-empty-tokens-text": lambda: replay(*EMPTY_TOKENS_TEXT, lambda x: '["v", null]' in x),
     "C01-tokens-in-sequence-typeerror": lambda: replay(*TOKENS_IN_SEQUENCE, lambda x: x == "serialize:TypeError"),
     "C01-nillable-class-attributes-capture-nil": lambda: replay(*NIL_IN_ATTRIBUTES, lambda x: "XMLSchema-instance}nil" in x),
+    "C01-attributes-key-declared": lambda: replay(*MAP_KEY_DECLARED, lambda x: '["m", {"attrs": []}], ["k", {"int": 5}]' in x),
+    "C01-attributes-value-prefix-rewritten": lambda: replay(*MAP_VALUE_PREFIX, lambda x: '"{urn:q}bar"' in x),
 }
